@@ -71,6 +71,28 @@ def run(chk):
             want = TABLE.get((ra, rm))
             chk.ob('R06.1', want is not None, rel, fname, tag + ' pencil roles', line=site['line'],
                    expected='(A=K, M=M) or (a=-M, b=K)', got='A:%s M:%s' % (ra, rm), sample='%s %s: A=%s M=%s' % (fname, tag, ra, rm))
+            if sparse:
+                kw = {k.arg: k.value for k in site['call'].keywords}
+                sig = kw.get('sigma')
+                sval = None
+                try:
+                    sval = float(ast.literal_eval(sig)) if sig is not None else None
+                except Exception:
+                    sval = None
+                wh = norm(kw.get('which')) if kw.get('which') is not None else None
+                ok = sval is not None and sval < 0 and wh == "'LM'"
+                chk.ob('R06.1', ok, rel, fname, tag + ' shift-invert selects the lowest frequencies', line=site['line'],
+                       expected="sigma a negative literal (below the spectrum of a positive semi-definite pencil) with which='LM'", got='sigma=%s which=%s' % (norm(sig), wh),
+                       detail='' if ok else 'with sigma >= 0 the solver returns the eigenvalues nearest sigma, not the smallest ones',
+                       sample='%s %s: sigma=%s which=%s' % (fname, tag, norm(sig), wh))
+            else:
+                masks = [n for n in ast.walk(fn) if isinstance(n, ast.Assign) and norm(n.targets[0]) == 'check']
+                okm = len(masks) == 1 and norm(masks[0].value) in ('col_sum!=0', 'np.abs(col_sum)>0', 'abs(col_sum)>0', 'col_sum!=0.0')
+                cs = [norm(n.value) for n in ast.walk(fn) if isinstance(n, ast.Assign) and norm(n.targets[0]) == 'col_sum']
+                chk.ob('R06.2', okm and cs == ['M.sum(axis=0)'], rel, fname, tag + ' null-amplitude mask is an exact zero test', line=masks[0].lineno if masks else 0,
+                       expected='check = (column sums of M) != 0', got=[norm(m.value) for m in masks] + cs,
+                       detail='' if okm else 'a threshold removes amplitudes that do carry (small) mass',
+                       sample='%s %s: mask %s' % (fname, tag, [norm(m.value) for m in masks]))
             base = {'sparse_solver': sparse, 'damping': False}
             for rd in (False, True):
                 for srt in (False, True):
